@@ -28,7 +28,7 @@ unsafe impl Sync for VariableInfo {}
 
 impl ToString for VariableInfo {
     fn to_string(&self) -> String {
-        self.tokens.iter().map(|item| item.to_string().to_lowercase()).collect::<String>()
+        self.tokens.iter().map(|item| item.to_string().to_lowercase()).collect::<Vec<String>>().join(" ")
     }
 }
 
